@@ -266,7 +266,9 @@ fn notif_type(v: u64) -> hest::NotificationType {
     }
 }
 
-pub const ISA_MASTERS: [&str; 3] = [
+pub const ISA_MASTERS: [&str; 4] = [
+    // as read from a device tree or a config file: blanks, tabs and newlines in and after the string
+    "rv64imafdc \t_zicbom\n_zicbop  _zicboz\r\n_sstc \n\n_svpbmt\t\t_zba _zbb _zbs \n",
     "rv64imafdch_zicbom_zicbop_zicboz_zicntr_zicsr_zifencei_zihintpause_zihpm_zba_zbb_zbs_sstc_svinval_svnapot_svpbmt_smaia_ssaia_sscofpmf_zfh_zfhmin_zkt_zvl128b_zve64d_xrivosvisni_xrivosvizip_abcdefghijklmnopqrstuvwxyz0123456789_abcdefghijklmnopqrstuvwxyz",
     "RV32IMAC",
     "rv64gcv_zba_zbb_zbc_zbs_zicbom_zicboz_svpbmt_sstc_aaaaaaaaaaaaaaaaaaaaaaaaaaaaaaaaaaaaaaaaaaaaaaaaaaaaaaaaaaaaaaaaaaaaaaaaaaaaaaaaaaaaaaaaaaaaaaaaaaaaaaaaaaaaaaaaaaaaaaaaaaaaaaaaaaaaaaaaaaaaaaaaaaaaaaaaaaaaaaaaaaaaaaaaaaaaaaaaaaaaaaaaaaaaaaaaaaaaaaaaaaaaaaaaaaaaaaaaaaaaaaaaaaaaaaaaaaaaaaaaaaaaaaaaaaaaaaaaaaaaaaaaaaaaaaaaaaaaaaaaaaaaaaaaaaaa",
@@ -831,6 +833,9 @@ pub fn build_sysloc(op: &Op) -> (hmat::SystemLocality, usize, usize) {
         match o.k {
             K::LocNonSeq => s.non_sequential_transfers(),
             K::LocMinTransfer => s.minimum_transfer_size_required(),
+            // a[2] == 1: the index is taken as it is (possibly out of range: a refusal is then expected)
+            K::LocSetInit if o.arg(2) == 1 => s.set_initiator_value(o.arg(0) as usize, o.arg(1) as u32),
+            K::LocSetTarget if o.arg(2) == 1 => s.set_target_value(o.arg(0) as usize, o.arg(1) as u32),
             K::LocSetInit if i > 0 => s.set_initiator_value((o.arg(0) as usize) % i, o.arg(1) as u32),
             K::LocSetTarget if t > 0 => s.set_target_value((o.arg(0) as usize) % t, o.arg(1) as u32),
             K::LocSetEntry if i > 0 && t > 0 => {
